@@ -410,7 +410,7 @@ pub fn run(ctx: &mut Ctx) {
     ctx.bound("request_alphabet", json!(names));
     ctx.bound("histories", json!(if thorough { "every ordered pair and every ordered triple, each in a fresh process, compared with the solo responses" } else { "every ordered pair; every ordered triple over the 8 state-prone requests" }));
     ctx.bound("interleavings_with_follow_up", json!("two concurrent requests of a 5 (8 in thorough) element subset, one of the two threads then serves a third request (get-file or not-found): every schedule with <= 2 preemptions"));
-    ctx.bound("interleavings", json!(if thorough { "every unordered pair (incl. the same request twice): every schedule with <= 3 preemptions; every unordered triple of 6 requests: <= 2 preemptions" } else { "every unordered pair (incl. the same request twice): every schedule with <= 2 preemptions" }));
+    ctx.bound("interleavings", json!(if thorough { "every unordered pair (incl. the same request twice): every schedule with <= 3 preemptions; every unordered triple of 6 requests: <= 2 preemptions" } else { "every unordered pair (incl. the same request twice): every schedule with <= 2 preemptions (<= 1 when both are among the 6 long exchanges); 6 pairs of different requests of the same controller" }));
     // (1) histories
     let mut hist_cfg = |ctx: &mut Ctx, config: &str, h: Vec<String>| {
         let j = if config == "default" { json!({"kind": "history", "requests": h}) } else { json!({"kind": "history", "config": config, "requests": h}) };
@@ -491,14 +491,22 @@ pub fn run(ctx: &mut Ctx) {
             }
         }
     };
+    // quick tier: pairs of two long exchanges (many write points each) get one preemption less
+    let long_ones = ["get-big", "link-big", "get-multi-range", "form-multipart", "builtin-index", "builtin-style"];
     for (i, a) in names.iter().enumerate() {
         for b in names.iter().skip(i) {
-            inter(ctx, vec![a.clone(), b.clone()], bound);
+            let both_long = long_ones.contains(&a.as_str()) && long_ones.contains(&b.as_str());
+            inter(ctx, vec![a.clone(), b.clone()], if both_long && !thorough { bound - 1 } else { bound });
         }
+    }
+    // two different requests of the same controller side by side (what one of them parks in
+    // shared state between matching and processing, the other may pick up)
+    for (a, b) in [("form-get", "form-get-other"), ("options-preflight", "options-preflight-put"), ("get-file", "get-file-query"), ("get-with-origin", "get-with-origin-foo"), ("not-found", "head-missing"), ("get-range", "get-suffix-range-other")] {
+        inter(ctx, vec![a.to_string(), b.to_string()], bound);
     }
     // two concurrent requests and a third one served afterwards by one of the two threads:
     // what a race leaves behind only shows in a later response
-    let first: Vec<&str> = if thorough { vec!["get-file", "form-post-short", "link-small", "options-preflight", "not-found", "bad-request", "get-with-origin", "builtin-index"] } else { vec!["get-file", "form-post-short", "link-small", "not-found", "bad-request"] };
+    let first: Vec<&str> = if thorough { vec!["get-file", "form-post-short", "link-small", "options-preflight", "not-found", "bad-request", "get-with-origin", "builtin-index"] } else { vec!["get-file", "form-post-short", "link-small", "not-found"] };
     for (i, a) in first.iter().enumerate() {
         for b in first.iter().skip(i) {
             for probe in ["get-file", "not-found"] {
@@ -521,7 +529,7 @@ pub fn run(ctx: &mut Ctx) {
     //     (so that a miss reads a file too)
     let root2 = build_tree_with("c08fs", true);
     std::env::set_current_dir(&root2).unwrap();
-    let fs_names: Vec<&str> = if thorough { vec!["not-found", "head-missing", "get-file", "get-range", "get-big", "dir-index", "link-small", "get-html-fallback", "builtin-index"] } else { vec!["not-found", "head-missing", "get-file", "get-range", "dir-index", "link-small"] };
+    let fs_names: Vec<&str> = if thorough { vec!["not-found", "head-missing", "get-file", "get-range", "get-big", "dir-index", "link-small", "get-html-fallback", "builtin-index"] } else { vec!["not-found", "head-missing", "get-file", "dir-index", "link-small"] };
     let fs_bound = 2;
     ctx.bound("fs_level_interleavings", json!({"requests": fs_names, "groups": "every unordered pair incl. the same request twice", "preemption_bound": fs_bound, "scheduling_points": "hook points + every read, lseek, pread and statx of the request threads", "tree": "the C08 tree plus a 3000-byte 404.html"}));
     for (i, a) in fs_names.iter().enumerate() {
